@@ -198,21 +198,26 @@ class CallMixin:
 
     def read_field(self, ref, h, attr, st, line):
         """Reads of lock-guarded fields of a shared object outside the lock see any value."""
-        mon = self.monitor_of(h)
+        mon = self.monitor_of(h, field=attr)
         if mon is not None and ref.oid in st.shared and attr in mon.fields:
             if not self.holds_lock(st, ref, mon):
                 t = mon.fields[attr]
                 self.racy_reads.add((self.cur_root, attr, line))
-                return self.make_symbolic(t, f'racy.{attr}', st)
+                val = self.make_symbolic(t, f'racy.{attr}', st)
+                st.trace.append(Event('read', attr, recv=ref, result=val, line=line, held=st.held))
+                return val
         return h.fields[attr]
 
-    def monitor_of(self, h):
+    def monitor_of(self, h, field=None, lock=None):
+        """Monitor of the object's class guarding `field` / owning lock named `lock`."""
         if not isinstance(h.cls, ClassInfo) or self.registry is None:
             return None
         for c in self.repo.mro(h.cls):
-            m = self.registry.monitors.get(c.qualname)
-            if m is not None:
-                return m
+            for m in self.registry.monitors.get(c.qualname, ()):
+                if field is not None and field in m.fields:
+                    return m
+                if lock is not None and lock in (m.lock,) + m.aliases:
+                    return m
         return None
 
     def holds_lock(self, st, ref, mon):
@@ -224,7 +229,7 @@ class CallMixin:
         if isinstance(o, Ref):
             h = st.obj(o)
             if h.kind == 'obj':
-                mon = self.monitor_of(h)
+                mon = self.monitor_of(h, field=attr)
                 if mon is not None and o.oid in st.shared and attr in mon.fields and not self.holds_lock(st, o, mon):
                     self.oblige(st, f'lock.write_guarded.{attr}@{line}', False, kind='lock', line=line,
                                 note=f'write of {attr} without holding {mon.lock}')
@@ -432,6 +437,8 @@ class CallMixin:
                         for kk, vv in s.obj(v).items.items():
                             kwargs[kk] = vv
                     elif isinstance(v, Ref) and s.obj(v).kind == 'symdict':
+                        kwargs['**'] = v
+                    elif isinstance(v, Opaque) and v.kind in ('kwargs',):
                         kwargs['**'] = v
                     else:
                         raise EngineError(f'**kwargs of {type(v).__name__} at line {e.lineno}')
